@@ -1,20 +1,22 @@
-import HcipyVerif.Lemmas.Fraunhofer
-import HcipyVerif.Lemmas.FourierLink
-import HcipyVerif.Lemmas.FraunhoferSelect
-import HcipyVerif.Lemmas.FraunhoferBridge
+import HcipyVerif.Lemmas.FraunhoferAbstract
+import HcipyVerif.Lemmas.FraunhoferObj
 
 /-!
 # C03 — lens (Fraunhofer) propagation equals the scaled Fourier integral
 
-Model of `FraunhoferPropagator` (hcipy/propagation/fraunhofer.py) over an abstract Fourier transform
-(`Lemmas/Fraunhofer.lean`): per wavelength `λ` the instance holds `uv = focal.scaled(2π/(f(λ)·λ))`, a transform
-`ft λ` built for `(pupil, uv)` and `norm = 1/(i f λ)`;  `forward` multiplies `ft.forward` by `norm`, `backward`
-divides `ft.backward` by it, both copy wavelength and Stokes vector.  Tensor (Jones vector / Jones matrix)
-fields are transformed component by component (`multiplex_for_tensor_fields`); `τ` indexes the components.
+Property theorems about the definitions the native driver executes (`Model/Fraunhofer.lean`, `Model/FraunhoferPipe.lean`,
+`Model/FraunhoferObj.lean`), at `ℝ`/`ℂ`:
 
-The three facts about the Fourier transform are hypotheses, to be discharged by C01/C02:
-`EvaluatesFourierSum` (any focal grid kind, any selected method), `ParsevalOn` and `InverseOn`
-(full FFT conjugate grid).
+* the executed **pipeline** `lensForward`/`lensBackward` (selection → FFT or MFT pipeline of C01 → norm factor),
+  `lensNaiveForward`/`lensNaiveBackward` (C01's naive transform for unstructured / polar focal grids),
+  `lensMftForward` (separated grids);
+* the executed **propagator object** `LensProp.forward/backward` on a whole wavefront record `Wf` (every tensor
+  component, wavelength, Stokes vector; `focal_length` setter histories);
+* the executable ℚ bookkeeping (`classify`, `lensMethod`, `planOf`, `lensObj`, the two focal-grid constructors,
+  `Session`), and the allocation model `runCalls` (object identity of results).
+
+The abstract, hypothesis-carrying layer (a propagator over an abstract Fourier transform; the `_fft/_mft/_sel` propagator
+wrappers; Stokes algebra) is in `Lemmas/FraunhoferAbstract.lean` and is used here as lemmas only.
 -/
 
 set_option linter.unusedSimpArgs false
@@ -27,255 +29,7 @@ namespace HcipyVerif.Fraunhofer
 
 variable {ι κ τ : Type*} [Fintype ι] [Fintype κ] [Fintype τ] {d : ℕ}
 
-/-- `Wavefront`: electric field (one scalar field per tensor component), wavelength, optional Stokes vector. -/
-structure Wavefront (ι τ : Type*) where
-  field : τ → ι → ℂ
-  wavelength : ℝ
-  stokes : Option (Fin 4 → ℝ)
-
-/-- `FraunhoferPropagator`: pupil grid, focal grid, focal length (constant or a function of the wavelength),
-and the Fourier transform `make_instance` builds for each wavelength. -/
-structure Propagator (ι κ : Type*) (d : ℕ) where
-  pupil : Grid ι d
-  focal : Grid κ d
-  focalLength : ℝ → ℝ
-  ft : ℝ → FourierTransform ι κ
-
-/-- `instance_data.uv_grid` for wavelength `lam`. -/
-noncomputable def Propagator.uvGrid (P : Propagator ι κ d) (lam : ℝ) : Grid κ d :=
-  P.focal.scaled (uvScaleR lam (P.focalLength lam))
-
-/-- `FraunhoferPropagator.forward`. -/
-noncomputable def Propagator.forward (P : Propagator ι κ d) (wf : Wavefront ι τ) : Wavefront κ τ :=
-  { field := fun t => normFactorC wf.wavelength (P.focalLength wf.wavelength) • (P.ft wf.wavelength).fwd (wf.field t)
-    wavelength := wf.wavelength
-    stokes := wf.stokes }
-
-/-- `FraunhoferPropagator.backward`. -/
-noncomputable def Propagator.backward (P : Propagator ι κ d) (wf : Wavefront κ τ) : Wavefront ι τ :=
-  { field := fun t => (normFactorC wf.wavelength (P.focalLength wf.wavelength))⁻¹ • (P.ft wf.wavelength).bwd (wf.field t)
-    wavelength := wf.wavelength
-    stokes := wf.stokes }
-
-/-- **C01 hypothesis for a propagator**: for every wavelength the selected transform evaluates the weighted
-Fourier sum on the uv grid it was built for. -/
-def Propagator.TransformsCorrect (P : Propagator ι κ d) : Prop :=
-  ∀ lam, EvaluatesFourierSum (P.ft lam) P.pupil (P.uvGrid lam)
-
-/-! ## the scaled Fourier integral -/
-
-/-- The scaling algebra of `grid.scaled(2π/(fλ))`: the kernel phase `uv_k · u_j` is `2π x_k·u_j/(λ f)`. -/
-theorem uv_dot (P : Propagator ι κ d) (lam : ℝ) (k : κ) (u : Fin d → ℝ) :
-    dot ((P.uvGrid lam).pts k) u = 2 * Real.pi * dot (P.focal.pts k) u / (lam * P.focalLength lam) := by
-  unfold Propagator.uvGrid Grid.scaled uvScaleR
-  simp only
-  rw [dot_smul_left]
-  ring
-
-/-- **`fraunhofer_eq_integral`.** At every focal point `x_k`, every tensor component `t`, whatever the kind of
-focal grid and whichever transform was selected:
-`E_out(x) = 1/(i λ f) · Σ_u E_in(u) w(u) exp(-2πi x·u/(λ f))`. -/
-theorem fraunhofer_eq_integral (P : Propagator ι κ d) (hT : P.TransformsCorrect) (wf : Wavefront ι τ)
-    (t : τ) (k : κ) :
-    (P.forward wf).field t k
-      = 1 / (I * (wf.wavelength : ℂ) * (P.focalLength wf.wavelength : ℂ))
-        * ∑ j, wf.field t j * (P.pupil.weights j : ℂ)
-            * cexp (-(2 * (Real.pi : ℂ) * I * ((dot (P.focal.pts k) (P.pupil.pts j) : ℝ) : ℂ))
-                / ((wf.wavelength : ℂ) * (P.focalLength wf.wavelength : ℂ))) := by
-  unfold Propagator.forward
-  simp only [Pi.smul_apply, smul_eq_mul]
-  rw [hT wf.wavelength (wf.field t) k]
-  unfold fourierSum normFactorC
-  congr 1
-  · rw [mul_right_comm]
-  · apply Finset.sum_congr rfl
-    intro j _
-    rw [uv_dot]
-    congr 2
-    push_cast
-    ring
-
-/-! ## weights of the two grids -/
-
-/-- `w_uv = w_focal · (2π/(λf))^d`, hence `w_focal = w_uv · (λf/2π)^d` (for `λ f > 0`). -/
-theorem focal_weight_eq (P : Propagator ι κ d) (lam : ℝ) (h : 0 < lam * P.focalLength lam) (k : κ) :
-    P.focal.weights k = (P.uvGrid lam).weights k * (lam * P.focalLength lam / (2 * Real.pi)) ^ d := by
-  unfold Propagator.uvGrid Grid.scaled
-  simp only
-  have hs : 0 < uvScaleR lam (P.focalLength lam) := uvScaleR_pos h
-  rw [abs_of_pos hs, mul_right_comm, ← mul_pow]
-  have : uvScaleR lam (P.focalLength lam) * (lam * P.focalLength lam / (2 * Real.pi)) = 1 := by
-    unfold uvScaleR
-    have hpi : (2 * Real.pi) ≠ 0 := by positivity
-    have h' : P.focalLength lam * lam ≠ 0 := by rw [mul_comm]; exact h.ne'
-    rw [mul_comm lam (P.focalLength lam), div_mul_div_comm, mul_comm (2 * Real.pi)]
-    exact div_self (mul_ne_zero h' hpi)
-  rw [this, one_pow, one_mul]
-
-/-! ## power and inverse on the full conjugate grid (two dimensions) -/
-
-/-- Inner products of any two propagated components equal those of the inputs:
-`Σ_k conj(E_out) G_out w_focal = Σ_j conj(E) G w_pupil` on a full conjugate grid (`ParsevalOn`).
-The factors: `|1/(iλf)|² = 1/(λf)²`, `w_focal = w_uv (λf/2π)²`, Parseval's `(2π)²`. -/
-theorem fraunhofer_inner (P : Propagator ι κ 2) (wf : Wavefront ι τ)
-    (hpos : 0 < wf.wavelength * P.focalLength wf.wavelength)
-    (hPars : ParsevalOn (P.ft wf.wavelength) P.pupil (P.uvGrid wf.wavelength)) (s t : τ) :
-    wip P.focal.weights ((P.forward wf).field s) ((P.forward wf).field t)
-      = wip P.pupil.weights (wf.field s) (wf.field t) := by
-  have hw : P.focal.weights = fun k => (wf.wavelength * P.focalLength wf.wavelength / (2 * Real.pi)) ^ 2
-      * (P.uvGrid wf.wavelength).weights k := by
-    funext k
-    rw [focal_weight_eq P wf.wavelength hpos k, mul_comm]
-  unfold Propagator.forward
-  simp only
-  rw [wip_smul_smul, hw, wip_scale_weights, hPars, norm_normFactorC_sq]
-  have hlf : ((wf.wavelength * P.focalLength wf.wavelength : ℝ) : ℂ) ≠ 0 := by exact_mod_cast hpos.ne'
-  have hpi : ((2 * Real.pi : ℝ) : ℂ) ≠ 0 := by
-    have : (2 * Real.pi) ≠ 0 := by positivity
-    exact_mod_cast this
-  push_cast at hlf hpi ⊢
-  field_simp
-  exact mul_div_cancel_left₀ _ hlf
-
-/-- **`fraunhofer_power`.** Total power `Σ_t Σ |E_t|² w` (scalar and Jones-vector wavefronts) is conserved on
-the full conjugate grid. -/
-theorem fraunhofer_power (P : Propagator ι κ 2) (wf : Wavefront ι τ)
-    (hpos : 0 < wf.wavelength * P.focalLength wf.wavelength)
-    (hPars : ParsevalOn (P.ft wf.wavelength) P.pupil (P.uvGrid wf.wavelength)) :
-    ∑ t, power P.focal.weights ((P.forward wf).field t) = ∑ t, power P.pupil.weights (wf.field t) := by
-  apply Finset.sum_congr rfl
-  intro t _
-  have h := fraunhofer_inner P wf hpos hPars t t
-  rw [wip_self, wip_self] at h
-  exact_mod_cast h
-
-/-- Intensity `I` of a partially polarised wavefront exactly as `Wavefront.I` computes it from the Jones
-matrix field `(x y; z w)` and the input Stokes vector `(a, b, c, d)`. -/
-noncomputable def stokesI (S : Fin 4 → ℝ) (x y z w : ℂ) : ℝ :=
-  let M11 := normSq x + normSq y + normSq z + normSq w
-  let M12 := normSq x - normSq y + normSq z - normSq w
-  let M13 := 2 * (x.re * y.re + x.im * y.im + z.re * w.re + z.im * w.im)
-  let M14 := 2 * (-x.re * y.im + x.im * y.re - z.re * w.im + z.im * w.re)
-  0.5 * (M11 * S 0 + M12 * S 1 + M13 * S 2 + M14 * S 3)
-
-/-- `I` is the real part of a combination of products `conj(p)·q` of components. -/
-theorem stokesI_eq_re (S : Fin 4 → ℝ) (x y z w : ℂ) :
-    stokesI S x y z w =
-      ((1 / 2 : ℂ) * (((S 0 + S 1 : ℝ) : ℂ) * (conj x * x + conj z * z)
-        + ((S 0 - S 1 : ℝ) : ℂ) * (conj y * y + conj w * w)
-        + 2 * ((S 2 : ℂ) - (S 3 : ℂ) * I) * (conj y * x + conj w * z))).re := by
-  unfold stokesI
-  simp only [Complex.mul_re, Complex.add_re, Complex.sub_re, Complex.mul_im, Complex.add_im, Complex.sub_im,
-    Complex.conj_re, Complex.conj_im, Complex.ofReal_re, Complex.ofReal_im, Complex.I_re, Complex.I_im,
-    Complex.one_re, Complex.one_im, Complex.div_re, Complex.div_im, Complex.normSq_apply,
-    Complex.re_ofNat, Complex.im_ofNat]
-  norm_num
-  ring
-
-/-- Total power of a Jones-matrix wavefront with Stokes vector: `Σ_k I_k w_k` (`Wavefront.power` for tensor
-order 2), components indexed by `Fin 2 × Fin 2`. -/
-noncomputable def stokesPower {α : Type*} [Fintype α] (w : α → ℝ) (S : Fin 4 → ℝ) (E : Fin 2 × Fin 2 → α → ℂ) : ℝ :=
-  ∑ i, stokesI S (E (0, 0) i) (E (0, 1) i) (E (1, 0) i) (E (1, 1) i) * w i
-
-theorem stokesPower_eq_re {α : Type*} [Fintype α] (w : α → ℝ) (S : Fin 4 → ℝ) (E : Fin 2 × Fin 2 → α → ℂ) :
-    stokesPower w S E =
-      ((1 / 2 : ℂ) * (((S 0 + S 1 : ℝ) : ℂ) * (wip w (E (0, 0)) (E (0, 0)) + wip w (E (1, 0)) (E (1, 0)))
-        + ((S 0 - S 1 : ℝ) : ℂ) * (wip w (E (0, 1)) (E (0, 1)) + wip w (E (1, 1)) (E (1, 1)))
-        + 2 * ((S 2 : ℂ) - (S 3 : ℂ) * I) * (wip w (E (0, 1)) (E (0, 0)) + wip w (E (1, 1)) (E (1, 0))))).re := by
-  unfold stokesPower wip
-  simp only [← Finset.sum_add_distrib, Finset.mul_sum, Complex.re_sum]
-  apply Finset.sum_congr rfl
-  intro i _
-  rw [stokesI_eq_re]
-  have hre : ∀ (c : ℂ) (r : ℝ), c.re * r = (c * (r : ℂ)).re := by
-    intro c r; simp [Complex.mul_re]
-  rw [hre]
-  congr 1
-  ring
-
-/-- **`fraunhofer_power` for Jones-matrix wavefronts**: the Stokes-`I` power is conserved as well. -/
-theorem fraunhofer_stokes_power (P : Propagator ι κ 2) (wf : Wavefront ι (Fin 2 × Fin 2)) (S : Fin 4 → ℝ)
-    (hpos : 0 < wf.wavelength * P.focalLength wf.wavelength)
-    (hPars : ParsevalOn (P.ft wf.wavelength) P.pupil (P.uvGrid wf.wavelength)) :
-    stokesPower P.focal.weights S (P.forward wf).field = stokesPower P.pupil.weights S wf.field := by
-  rw [stokesPower_eq_re, stokesPower_eq_re]
-  simp only [fraunhofer_inner P wf hpos hPars]
-
-/-- **`fraunhofer_inverse`.** On the full conjugate grid backward propagation restores the input wavefront
-(field, wavelength and Stokes vector). -/
-theorem fraunhofer_inverse (P : Propagator ι κ d) (wf : Wavefront ι τ)
-    (hne : wf.wavelength * P.focalLength wf.wavelength ≠ 0)
-    (hInv : InverseOn (P.ft wf.wavelength)) :
-    P.backward (P.forward wf) = wf := by
-  unfold Propagator.backward Propagator.forward
-  cases wf with
-  | mk field lam stokes =>
-    simp only [Wavefront.mk.injEq, and_true]
-    funext t
-    rw [map_smul, hInv, smul_smul, inv_mul_cancel₀ (normFactorC_ne_zero hne), one_smul]
-
-/-! ## one propagator object used repeatedly
-
-`forward`/`backward` are functions of the propagator's *current* fields and of the wavefront: no call leaves
-anything behind that a later call could see (the real object's scratch arrays and instance cache must be
-transparent — C05 proves that for the cache; the harness replays call sequences on one object).  The setter
-`prop.focal_length = g` replaces the focal length and, having cleared the cache, the transforms. -/
-
-/-- `prop.focal_length = g`: new focal length, transforms rebuilt by `make_instance` on the next call. -/
-def Propagator.setFocalLength (P : Propagator ι κ d) (g : ℝ → ℝ) (ft' : ℝ → FourierTransform ι κ) :
-    Propagator ι κ d :=
-  { P with focalLength := g, ft := ft' }
-
-/-- After the setter, forward is the Fourier integral for the **new** focal length (constant or
-wavelength-dependent) — nothing of the old one survives, whatever was propagated before. -/
-theorem fraunhofer_eq_integral_after_set (P : Propagator ι κ d) (g : ℝ → ℝ) (ft' : ℝ → FourierTransform ι κ)
-    (hT : (P.setFocalLength g ft').TransformsCorrect) (wf : Wavefront ι τ) (t : τ) (k : κ) :
-    ((P.setFocalLength g ft').forward wf).field t k
-      = 1 / (I * (wf.wavelength : ℂ) * (g wf.wavelength : ℂ))
-        * ∑ j, wf.field t j * (P.pupil.weights j : ℂ)
-            * cexp (-(2 * (Real.pi : ℂ) * I * ((dot (P.focal.pts k) (P.pupil.pts j) : ℝ) : ℂ))
-                / ((wf.wavelength : ℂ) * (g wf.wavelength : ℂ))) :=
-  fraunhofer_eq_integral (P.setFocalLength g ft') hT wf t k
-
-/-- The last assignment wins — **by construction** (the setter overwrites the two fields).  For the running code
-the harness replays set/forward sequences on one object (`trace`) and the instance cache's transparency is C05's
-subject. -/
-theorem setFocalLength_setFocalLength (P : Propagator ι κ d) (g h : ℝ → ℝ) (f1 f2 : ℝ → FourierTransform ι κ) :
-    (P.setFocalLength g f1).setFocalLength h f2 = P.setFocalLength h f2 := rfl
-
-/-- **Backward is the adjoint Fourier integral** (two dimensions), for any focal grid on which the selected
-transform's `backward` evaluates the adjoint sum (C02 `adjoint_sum`):
-`E_back(u) = i/(λf) · Σ_x E(x) w_focal(x) exp(+2πi x·u/(λf))`.  This is what the harness compares every
-`backward` of a call sequence with. -/
-theorem fraunhofer_backward_eq_adjoint_integral (P : Propagator ι κ 2) (wg : Wavefront κ τ)
-    (hpos : 0 < wg.wavelength * P.focalLength wg.wavelength)
-    (hA : EvaluatesAdjointSum (P.ft wg.wavelength) P.pupil (P.uvGrid wg.wavelength)) (t : τ) (j : ι) :
-    (P.backward wg).field t j
-      = I / ((wg.wavelength : ℂ) * (P.focalLength wg.wavelength : ℂ))
-        * ∑ k, wg.field t k * (P.focal.weights k : ℂ)
-            * cexp (2 * (Real.pi : ℂ) * I * ((dot (P.focal.pts k) (P.pupil.pts j) : ℝ) : ℂ)
-                / ((wg.wavelength : ℂ) * (P.focalLength wg.wavelength : ℂ))) := by
-  unfold Propagator.backward
-  simp only [Pi.smul_apply, smul_eq_mul]
-  rw [hA (wg.field t) j]
-  have hlf : ((wg.wavelength : ℂ) * (P.focalLength wg.wavelength : ℂ)) ≠ 0 := by exact_mod_cast hpos.ne'
-  have hl : (wg.wavelength : ℂ) ≠ 0 := left_ne_zero_of_mul hlf
-  have hf : (P.focalLength wg.wavelength : ℂ) ≠ 0 := right_ne_zero_of_mul hlf
-  have hpi : ((2 * Real.pi : ℝ) : ℂ) ≠ 0 := by
-    have : (2 * Real.pi) ≠ 0 := by positivity
-    exact_mod_cast this
-  rw [Finset.mul_sum, Finset.mul_sum, Finset.mul_sum]
-  apply Finset.sum_congr rfl
-  intro k _
-  rw [focal_weight_eq P wg.wavelength hpos k, uv_dot]
-  have hexp : cexp (I * ((2 * Real.pi * dot (P.focal.pts k) (P.pupil.pts j) / (wg.wavelength * P.focalLength wg.wavelength) : ℝ) : ℂ))
-      = cexp (2 * (Real.pi : ℂ) * I * ((dot (P.focal.pts k) (P.pupil.pts j) : ℝ) : ℂ)
-          / ((wg.wavelength : ℂ) * (P.focalLength wg.wavelength : ℂ))) := by
-    congr 1; push_cast; ring
-  rw [hexp]
-  unfold normFactorC
-  push_cast at hpi ⊢
-  field_simp
+/-! ## the executable session -/
 
 /-- Executable model (driver ops `session`/`setf`/`at`, compared with the instance the running object uses after the
 same assignments): after any history of `focal_length` assignments the instance of a call is the one of the last
@@ -290,44 +44,6 @@ theorem session_instance_after_sets (s : Session) (fs : List FocalSpec) (f : Foc
   induction fs generalizing s with
   | nil => rfl
   | cons g gs ih => exact (ih (s.setFocalLength g)).trans rfl
-
-/-! ## wavelength and Stokes vector -/
-
-/-- Forward and backward copy the wavelength and the Stokes vector unchanged — **true by construction** of
-`Propagator.forward/backward` (which transcribe `Wavefront(Field(U_new, grid), wavefront.wavelength,
-wavefront.input_stokes_vector)`); the statement only records what the model says.  What carries the clause for the
-running code is the harness: every `forward`/`backward` of every case compares `wavelength` and
-`input_stokes_vector` of the result with the input (labels `wavelength-carried`, `stokes-carried`), and
-`Bad.forward_dropStokes_changes_power` shows the clause is not empty: a forward that forgets the optional third
-constructor argument changes the reported power of a polarised wavefront. -/
-theorem meta_carried_by_construction (P : Propagator ι κ d) (wf : Wavefront ι τ) (wg : Wavefront κ τ) :
-    (P.forward wf).wavelength = wf.wavelength ∧ (P.forward wf).stokes = wf.stokes ∧
-    (P.backward wg).wavelength = wg.wavelength ∧ (P.backward wg).stokes = wg.stokes :=
-  ⟨rfl, rfl, rfl, rfl⟩
-
-/-- **`Old`/`Bad` variant** (not the code's behaviour): a `forward` that builds `Wavefront(field, wavelength)` and
-forgets `input_stokes_vector`. -/
-noncomputable def Bad.forwardDropStokes (P : Propagator ι κ d) (wf : Wavefront ι τ) : Wavefront κ τ :=
-  { P.forward wf with stokes := none }
-
-/-- `Wavefront.I` of a Jones-matrix wavefront: with a Stokes vector `stokesI`, without one the unpolarised value
-`stokesI (1, 0, 0, 0)`. -/
-noncomputable def wavefrontI (S : Option (Fin 4 → ℝ)) (x y z w : ℂ) : ℝ :=
-  stokesI (S.getD ![1, 0, 0, 0]) x y z w
-
-/-- The clause "the Stokes vector is carried" can fail and matters: for the Stokes vector `(1, 1, 0, 0)` and the
-Jones matrix `(0 1; 0 0)` the intensity is `0`, but `1/2` once the Stokes vector is dropped. -/
-theorem Bad.forward_dropStokes_changes_power (P : Propagator ι κ d) (wf : Wavefront ι τ)
-    (hS : wf.stokes = some ![1, 1, 0, 0]) :
-    (Bad.forwardDropStokes P wf).stokes ≠ (P.forward wf).stokes ∧
-      wavefrontI (Bad.forwardDropStokes P wf).stokes 0 1 0 0 ≠ wavefrontI (P.forward wf).stokes 0 1 0 0 := by
-  have h1 : (P.forward wf).stokes = some ![1, 1, 0, 0] := hS
-  have h2 : (Bad.forwardDropStokes P wf).stokes = none := rfl
-  rw [h1, h2]
-  refine ⟨by simp, ?_⟩
-  unfold wavefrontI stokesI
-  simp
-  norm_num
 
 /-! ## the executable model's exact data are these real numbers -/
 
@@ -346,377 +62,6 @@ theorem model_uvScale (s : Setup) :
   push_cast
   rw [mul_comm (s.f : ℝ)]
   ring
-
-/-! ## the hypotheses are satisfiable -/
-
-/-- `TransformsCorrect` is satisfiable for every pupil and focal grid: take the transform *defined* as the
-weighted Fourier sum (hcipy's `NaiveFourierTransform`). -/
-example (pupil : Grid ι d) (focal : Grid κ d) (f : ℝ → ℝ) :
-    ∃ P : Propagator ι κ d, P.pupil = pupil ∧ P.focal = focal ∧ P.focalLength = f ∧ P.TransformsCorrect := by
-  refine ⟨{ pupil := pupil, focal := focal, focalLength := f,
-            ft := fun lam => { fwd := { toFun := fun E k => fourierSum pupil ((focal.scaled (uvScaleR lam (f lam))).pts k) E,
-                                        map_add' := ?_, map_smul' := ?_ },
-                               bwd := 0 } }, rfl, rfl, rfl, fun lam E k => rfl⟩
-  · intro x y; funext k
-    simp only [fourierSum, Pi.add_apply, ← Finset.sum_add_distrib]
-    apply Finset.sum_congr rfl; intro j _; ring
-  · intro a x; funext k
-    simp only [fourierSum, Pi.smul_apply, smul_eq_mul, RingHom.id_apply, Finset.mul_sum]
-    apply Finset.sum_congr rfl; intro j _; ring
-
-/-- `ParsevalOn` and `InverseOn` are satisfiable together in two dimensions: one pupil sample of weight `1`
-at the origin, one uv sample of weight `(2π)²`; the transform is the identity. -/
-example : ∃ (T : FourierTransform Unit Unit) (pupil uv : Grid Unit 2),
-    EvaluatesFourierSum T pupil uv ∧ ParsevalOn T pupil uv ∧ InverseOn T := by
-  refine ⟨{ fwd := LinearMap.id, bwd := LinearMap.id }, { pts := fun _ _ => 0, weights := fun _ => 1 },
-    { pts := fun _ _ => 0, weights := fun _ => (2 * Real.pi) ^ 2 }, ?_, ?_, fun _ => rfl⟩
-  · intro E k
-    simp [fourierSum, dot]
-  · intro E G
-    simp [wip]
-    ring
-
-/-! ## the Fourier hypotheses discharged: the FFT model of C01/C02 (`Lemmas/FourierLink.lean`)
-
-`fftPropagator` is a Fraunhofer propagator between the regular pupil grid of two axis configurations
-`gy gx : Cfg ℝ ℂ` (sizes `N`, padded sizes `M`, output sizes `Mo`, spacings, offsets, shifts — the data of a
-`FastFourierTransform`, `AxisOK` = `N ≤ M`, `Mo ≤ M`, `Δ·M·δ = 2π`, weight `δ`) and the focal grid that is
-FFT-native at the wavelength `lam0`; its transform is the *model of the code*: the literal 2-D pipelines
-`fastForward2` / `fastBackward2` (zero padding, (emulated) fftshifts, `fftn`, cropping, multipliers).
-The theorems below carry no hypothesis about the Fourier transform any more. -/
-
-section fft
-open HcipyVerif.Fft HcipyVerif.FourierLink
-
-/-- `fraunhofer_eq_integral` needs the C01 hypothesis only at the wavelength of the wavefront. -/
-theorem fraunhofer_eq_integral_at (P : Propagator ι κ d) (wf : Wavefront ι τ)
-    (hT : EvaluatesFourierSum (P.ft wf.wavelength) P.pupil (P.uvGrid wf.wavelength)) (t : τ) (k : κ) :
-    (P.forward wf).field t k
-      = 1 / (I * (wf.wavelength : ℂ) * (P.focalLength wf.wavelength : ℂ))
-        * ∑ j, wf.field t j * (P.pupil.weights j : ℂ)
-            * cexp (-(2 * (Real.pi : ℂ) * I * ((dot (P.focal.pts k) (P.pupil.pts j) : ℝ) : ℂ))
-                / ((wf.wavelength : ℂ) * (P.focalLength wf.wavelength : ℂ))) := by
-  unfold Propagator.forward
-  simp only [Pi.smul_apply, smul_eq_mul]
-  rw [hT (wf.field t) k]
-  unfold fourierSum normFactorC
-  congr 1
-  · rw [mul_right_comm]
-  · apply Finset.sum_congr rfl
-    intro j _
-    rw [uv_dot]
-    congr 2
-    push_cast
-    ring
-
-/-- The propagator built on the FFT model: pupil grid of `(gy, gx)`, focal grid FFT-native at `lam0`. -/
-noncomputable def fftPropagator (gy gx : Cfg ℝ ℂ) (oky : AxisOK gy) (okx : AxisOK gx) (hemu : gy.emu = gx.emu)
-    (f lam0 : ℝ) : Propagator (Fin gy.N × Fin gx.N) (Fin gy.Mo × Fin gx.Mo) 2 :=
-  { pupil := pupilGrid2 gy gx
-    focal := (uvGrid2 gy gx).scaled (uvScaleR lam0 f)⁻¹
-    focalLength := fun _ => f
-    ft := fun _ => fftTransform2 gy gx oky okx hemu }
-
-/-- at `lam0` the uv grid of the propagator is the FFT's own output grid -/
-theorem fftPropagator_uvGrid (gy gx : Cfg ℝ ℂ) (oky : AxisOK gy) (okx : AxisOK gx) (hemu : gy.emu = gx.emu)
-    (f lam0 : ℝ) (hpos : 0 < lam0 * f) :
-    (fftPropagator gy gx oky okx hemu f lam0).uvGrid lam0 = uvGrid2 gy gx := by
-  have hs : 0 < uvScaleR lam0 f := uvScaleR_pos hpos
-  unfold Propagator.uvGrid fftPropagator Grid.scaled
-  simp only
-  congr 1
-  · funext k i
-    rw [← mul_assoc, mul_inv_cancel₀ hs.ne', one_mul]
-    rfl
-  · funext k
-    rw [← mul_assoc, ← mul_pow, abs_inv, mul_inv_cancel₀ (abs_pos.mpr hs.ne').ne', one_pow, one_mul]
-    rfl
-
-/-- **`fraunhofer_eq_integral` for the FFT model**: on every consistent FFT grid (any padding `q`, cropping
-`fov`, shift, either `emulate_fftshifts` setting) the propagated field is the scaled Fourier integral. -/
-theorem fraunhofer_eq_integral_fft (gy gx : Cfg ℝ ℂ) (oky : AxisOK gy) (okx : AxisOK gx) (hemu : gy.emu = gx.emu)
-    (f lam0 : ℝ) (hpos : 0 < lam0 * f) (wf : Wavefront (Fin gy.N × Fin gx.N) τ) (hwl : wf.wavelength = lam0)
-    (t : τ) (k : Fin gy.Mo × Fin gx.Mo) :
-    ((fftPropagator gy gx oky okx hemu f lam0).forward wf).field t k
-      = 1 / (I * (lam0 : ℂ) * (f : ℂ))
-        * ∑ j, wf.field t j * ((gy.δ * gx.δ : ℝ) : ℂ)
-            * cexp (-(2 * (Real.pi : ℂ) * I
-                * ((dot ((fftPropagator gy gx oky okx hemu f lam0).focal.pts k) ((pupilGrid2 gy gx).pts j) : ℝ) : ℂ))
-                / ((lam0 : ℂ) * (f : ℂ))) := by
-  have hT : EvaluatesFourierSum ((fftPropagator gy gx oky okx hemu f lam0).ft wf.wavelength)
-      (fftPropagator gy gx oky okx hemu f lam0).pupil
-      ((fftPropagator gy gx oky okx hemu f lam0).uvGrid wf.wavelength) := by
-    rw [hwl, fftPropagator_uvGrid gy gx oky okx hemu f lam0 hpos]
-    exact fft2_evaluates gy gx oky okx hemu
-  have h := fraunhofer_eq_integral_at (fftPropagator gy gx oky okx hemu f lam0) wf hT t k
-  rw [hwl] at h
-  exact h
-
-/-- **`fraunhofer_power` for the FFT model** on the full conjugate pair (`fov = 1` on both axes). -/
-theorem fraunhofer_power_fft (gy gx : Cfg ℝ ℂ) (oky : AxisOK gy) (okx : AxisOK gx) (hemu : gy.emu = gx.emu)
-    (hfy : gy.Mo = gy.M) (hfx : gx.Mo = gx.M)
-    (f lam0 : ℝ) (hpos : 0 < lam0 * f) (wf : Wavefront (Fin gy.N × Fin gx.N) τ) (hwl : wf.wavelength = lam0) :
-    ∑ t, power (fftPropagator gy gx oky okx hemu f lam0).focal.weights
-        (((fftPropagator gy gx oky okx hemu f lam0).forward wf).field t)
-      = ∑ t, power (pupilGrid2 gy gx).weights (wf.field t) := by
-  apply fraunhofer_power (fftPropagator gy gx oky okx hemu f lam0) wf
-  · rw [hwl]; exact hpos
-  · rw [hwl, fftPropagator_uvGrid gy gx oky okx hemu f lam0 hpos]
-    exact fft2_parseval gy gx oky okx hemu hfy hfx
-
-/-- … and for Jones-matrix wavefronts with a Stokes vector. -/
-theorem fraunhofer_stokes_power_fft (gy gx : Cfg ℝ ℂ) (oky : AxisOK gy) (okx : AxisOK gx) (hemu : gy.emu = gx.emu)
-    (hfy : gy.Mo = gy.M) (hfx : gx.Mo = gx.M) (f lam0 : ℝ) (hpos : 0 < lam0 * f)
-    (wf : Wavefront (Fin gy.N × Fin gx.N) (Fin 2 × Fin 2)) (S : Fin 4 → ℝ) (hwl : wf.wavelength = lam0) :
-    stokesPower (fftPropagator gy gx oky okx hemu f lam0).focal.weights S
-        ((fftPropagator gy gx oky okx hemu f lam0).forward wf).field
-      = stokesPower (pupilGrid2 gy gx).weights S wf.field := by
-  apply fraunhofer_stokes_power (fftPropagator gy gx oky okx hemu f lam0) wf S
-  · rw [hwl]; exact hpos
-  · rw [hwl, fftPropagator_uvGrid gy gx oky okx hemu f lam0 hpos]
-    exact fft2_parseval gy gx oky okx hemu hfy hfx
-
-/-- **`fraunhofer_inverse` for the FFT model** on the full conjugate pair. -/
-theorem fraunhofer_inverse_fft (gy gx : Cfg ℝ ℂ) (oky : AxisOK gy) (okx : AxisOK gx) (hemu : gy.emu = gx.emu)
-    (hfy : gy.Mo = gy.M) (hfx : gx.Mo = gx.M)
-    (f lam0 : ℝ) (hpos : 0 < lam0 * f) (wf : Wavefront (Fin gy.N × Fin gx.N) τ) (hwl : wf.wavelength = lam0) :
-    (fftPropagator gy gx oky okx hemu f lam0).backward ((fftPropagator gy gx oky okx hemu f lam0).forward wf) = wf := by
-  apply fraunhofer_inverse (fftPropagator gy gx oky okx hemu f lam0) wf
-  · rw [hwl]; exact hpos.ne'
-  · exact fft2_inverse gy gx oky okx hemu hfy hfx
-
-/-- **`fraunhofer_backward_eq_adjoint_integral` for the FFT model**: on every consistent FFT grid
-(cropped or not, either shift setting) `backward` is the adjoint Fourier integral
-`i/(λf)·Σ_x E(x) w_focal(x) exp(+2πi x·u/(λf))`. -/
-theorem fraunhofer_backward_eq_adjoint_integral_fft (gy gx : Cfg ℝ ℂ) (oky : AxisOK gy) (okx : AxisOK gx)
-    (hemu : gy.emu = gx.emu) (f lam0 : ℝ) (hpos : 0 < lam0 * f)
-    (wg : Wavefront (Fin gy.Mo × Fin gx.Mo) τ) (hwl : wg.wavelength = lam0) (t : τ) (j : Fin gy.N × Fin gx.N) :
-    ((fftPropagator gy gx oky okx hemu f lam0).backward wg).field t j
-      = I / ((lam0 : ℂ) * (f : ℂ))
-        * ∑ k, wg.field t k * ((fftPropagator gy gx oky okx hemu f lam0).focal.weights k : ℂ)
-            * cexp (2 * (Real.pi : ℂ) * I
-                * ((dot ((fftPropagator gy gx oky okx hemu f lam0).focal.pts k) ((pupilGrid2 gy gx).pts j) : ℝ) : ℂ)
-                / ((lam0 : ℂ) * (f : ℂ))) := by
-  have hA : EvaluatesAdjointSum ((fftPropagator gy gx oky okx hemu f lam0).ft wg.wavelength)
-      (fftPropagator gy gx oky okx hemu f lam0).pupil
-      ((fftPropagator gy gx oky okx hemu f lam0).uvGrid wg.wavelength) := by
-    rw [hwl, fftPropagator_uvGrid gy gx oky okx hemu f lam0 hpos]
-    exact fft2_adjoint gy gx oky okx hemu
-  have h := fraunhofer_backward_eq_adjoint_integral (fftPropagator gy gx oky okx hemu f lam0) wg
-    (by rw [hwl]; exact hpos) hA t j
-  rw [hwl] at h
-  exact h
-
-
-/-! ## the MFT model of C01 — the path lens propagators take for every grid of `make_focal_grid`
-
-`mftPropagator` is a Fraunhofer propagator between **any two separated Cartesian grids** (regular or not,
-arbitrary weights): per wavelength `make_instance` builds `MatrixFourierTransform(pupil, focal.scaled(2π/(λf)))`,
-modelled by `mftTransform2` (C01's `mftForward`/`mftBackward`: the two `gemm` products with their transposes,
-either weight branch) with output coordinates in units of 2π, `X/(λ f)` — the very function the driver runs at
-`Rat`/`PSum` (`Model/FraunhoferPipe.lean`, op `lens`).  No Fourier hypothesis, no restriction on the wavelength. -/
-
-/-- `FraunhoferPropagator(pupil, focal, f)` whose transform is the MFT model at every wavelength.
-`w` = `weights_input`, `wOut lam` = `weights_output` of the instance for `lam`. -/
-noncomputable def mftPropagator {Ny Nx Nv Nu : ℕ} (x y X Y : ℕ → ℝ) (wp : Fin Ny × Fin Nx → ℝ)
-    (wf : Fin Nv × Fin Nu → ℝ) (f : ℝ → ℝ) (w : Weights ℂ) (wOut : ℝ → Weights ℂ) :
-    Propagator (Fin Ny × Fin Nx) (Fin Nv × Fin Nu) 2 :=
-  { pupil := sepGrid x y wp
-    focal := sepGrid X Y wf
-    focalLength := f
-    ft := fun lam => mftTransform2 Nx Ny Nu Nv x y (fun k => X k / (lam * f lam)) (fun k => Y k / (lam * f lam))
-      w (wOut lam) }
-
-theorem uvScaleR_eq (lam f : ℝ) : uvScaleR lam f = 2 * Real.pi / (lam * f) := by
-  unfold uvScaleR; rw [mul_comm f lam]
-
-/-- the uv grid of the instance is the separated grid with coordinates `2π·X/(λf)` -/
-theorem mftPropagator_uvGrid {Ny Nx Nv Nu : ℕ} (x y X Y : ℕ → ℝ) (wp : Fin Ny × Fin Nx → ℝ)
-    (wf : Fin Nv × Fin Nu → ℝ) (f : ℝ → ℝ) (w : Weights ℂ) (wOut : ℝ → Weights ℂ) (lam : ℝ) :
-    (mftPropagator x y X Y wp wf f w wOut).uvGrid lam
-      = sepGrid (fun i => 2 * Real.pi * (X i / (lam * f lam))) (fun i => 2 * Real.pi * (Y i / (lam * f lam)))
-          (fun k => |2 * Real.pi / (lam * f lam)| ^ 2 * wf k) := by
-  unfold Propagator.uvGrid mftPropagator Grid.scaled sepGrid
-  simp only [uvScaleR_eq]
-  congr 1
-  funext k i
-  fin_cases i
-  · simp; ring
-  · simp; ring
-
-/-- **`Propagator.TransformsCorrect` discharged for the MFT model** (C01 `mft_eq_sum_2d`, either weight branch):
-every wavelength, every focal length function, every pair of separated grids. -/
-theorem mftPropagator_transformsCorrect {Ny Nx Nv Nu : ℕ} (x y X Y : ℕ → ℝ) (wp : Fin Ny × Fin Nx → ℝ)
-    (wf : Fin Nv × Fin Nu → ℝ) (f : ℝ → ℝ) (w : Weights ℂ) (wOut : ℝ → Weights ℂ)
-    (hw : ∀ p : Fin Ny × Fin Nx, w.get (p.1 * Nx + p.2) = ((wp p : ℝ) : ℂ)) :
-    (mftPropagator x y X Y wp wf f w wOut).TransformsCorrect := by
-  intro lam
-  rw [mftPropagator_uvGrid]
-  exact mft2_evaluates _ _ _ _ _ _ _ _ _ _ _ _ hw
-
-/-- **`fraunhofer_eq_integral` for the MFT model — no hypothesis about the transform**: for every pair of
-separated Cartesian grids (both focal-grid constructors, hand-made regular, separated), every wavelength, every
-(wavelength-dependent) focal length, every tensor component and focal point. -/
-theorem fraunhofer_eq_integral_mft {Ny Nx Nv Nu : ℕ} (x y X Y : ℕ → ℝ) (wp : Fin Ny × Fin Nx → ℝ)
-    (wf : Fin Nv × Fin Nu → ℝ) (f : ℝ → ℝ) (w : Weights ℂ) (wOut : ℝ → Weights ℂ)
-    (hw : ∀ p : Fin Ny × Fin Nx, w.get (p.1 * Nx + p.2) = ((wp p : ℝ) : ℂ))
-    (wfr : Wavefront (Fin Ny × Fin Nx) τ) (t : τ) (k : Fin Nv × Fin Nu) :
-    ((mftPropagator x y X Y wp wf f w wOut).forward wfr).field t k
-      = 1 / (I * (wfr.wavelength : ℂ) * (f wfr.wavelength : ℂ))
-        * ∑ j : Fin Ny × Fin Nx, wfr.field t j * (wp j : ℂ)
-            * cexp (-(2 * (Real.pi : ℂ) * I * ((dot ![X k.2, Y k.1] ![x j.2, y j.1] : ℝ) : ℂ))
-                / ((wfr.wavelength : ℂ) * (f wfr.wavelength : ℂ))) :=
-  fraunhofer_eq_integral (mftPropagator x y X Y wp wf f w wOut)
-    (mftPropagator_transformsCorrect x y X Y wp wf f w wOut hw) wfr t k
-
-/-- **backward of the MFT model is the adjoint Fourier integral** (C01 `mft_backward_eq_sum_2d'`), `λ f > 0`,
-when the instance holds `weights_output = uv.weights/(2π)²`. -/
-theorem fraunhofer_backward_eq_adjoint_integral_mft {Ny Nx Nv Nu : ℕ} (x y X Y : ℕ → ℝ)
-    (wp : Fin Ny × Fin Nx → ℝ) (wf : Fin Nv × Fin Nu → ℝ) (f : ℝ → ℝ) (w : Weights ℂ) (wOut : ℝ → Weights ℂ)
-    (wg : Wavefront (Fin Nv × Fin Nu) τ) (hpos : 0 < wg.wavelength * f wg.wavelength)
-    (hwo : ∀ k : Fin Nv × Fin Nu, (wOut wg.wavelength).get (k.1 * Nu + k.2)
-      = ((|2 * Real.pi / (wg.wavelength * f wg.wavelength)| ^ 2 * wf k : ℝ) : ℂ) / (((2 * Real.pi) ^ 2 : ℝ) : ℂ))
-    (t : τ) (j : Fin Ny × Fin Nx) :
-    ((mftPropagator x y X Y wp wf f w wOut).backward wg).field t j
-      = I / ((wg.wavelength : ℂ) * (f wg.wavelength : ℂ))
-        * ∑ k : Fin Nv × Fin Nu, wg.field t k * (wf k : ℂ)
-            * cexp (2 * (Real.pi : ℂ) * I * ((dot ![X k.2, Y k.1] ![x j.2, y j.1] : ℝ) : ℂ)
-                / ((wg.wavelength : ℂ) * (f wg.wavelength : ℂ))) := by
-  apply fraunhofer_backward_eq_adjoint_integral (mftPropagator x y X Y wp wf f w wOut) wg hpos
-  rw [mftPropagator_uvGrid]
-  exact mft2_adjoint _ _ _ _ _ _ _ _ _ _ _ _ hwo
-
-/-- the weight hypothesis is satisfiable for every grid: the array branch with the grid's own weights … -/
-example {Ny Nx : ℕ} (wp : Fin Ny × Fin Nx → ℝ) :
-    ∃ w : Weights ℂ, ∀ p : Fin Ny × Fin Nx, w.get (p.1 * Nx + p.2) = ((wp p : ℝ) : ℂ) :=
-  ⟨.array (flat2 fun p => ((wp p : ℝ) : ℂ)), fun p => by
-    show flat2 _ (p.1 * Nx + p.2) = _
-    rw [flat2_flat _ p.1 p.2.2, ext2_apply]⟩
-
-/-- … and the scalar branch when all weights are equal (regular grids). -/
-example {Ny Nx : ℕ} (w0 : ℝ) :
-    ∀ p : Fin Ny × Fin Nx, (Weights.scalar ((w0 : ℝ) : ℂ)).get (p.1 * Nx + p.2) = (((fun _ => w0) p : ℝ) : ℂ) :=
-  fun _ => rfl
-
-/-! ## the transform `make_fourier_transform` selects, every wavelength
-
-`lensPropagator`: two regular Cartesian grids; per wavelength the transform is the constructor call on the method
-that C01's model of `make_fourier_transform` (`FftSelect.choose detectFix`) selects for the scaled grid
-(`Lemmas/FraunhoferSelect.lean`): the FFT model when the uv grid is FFT-native at that wavelength **and** the
-planner prefers it, the MFT model otherwise.  The planner's float comparison is the oracle `cheaper : ℝ → Bool`
-(any function).  Both branches are models of code, proved by C01; none is the specification. -/
-
-/-- `FraunhoferPropagator(pupil, focal, f)` on regular grids with `make_fourier_transform`'s selection. -/
-noncomputable def lensPropagator (py px Fy Fx : RegAxis) (f : ℝ → ℝ) (cheaper : ℝ → Bool) (emu : Bool) :
-    Propagator (Fin py.n × Fin px.n) (Fin Fy.n × Fin Fx.n) 2 :=
-  { pupil := regGrid2 py px
-    focal := regGrid2 Fy Fx
-    focalLength := f
-    ft := fun lam => lensTransform py px Fy Fx (lam * f lam) (cheaper lam) emu }
-
-theorem lensPropagator_uvGrid (py px Fy Fx : RegAxis) (f : ℝ → ℝ) (cheaper : ℝ → Bool) (emu : Bool) (lam : ℝ) :
-    (lensPropagator py px Fy Fx f cheaper emu).uvGrid lam = (regGrid2 Fy Fx).scaled (2 * Real.pi / (lam * f lam)) := by
-  unfold Propagator.uvGrid lensPropagator
-  simp only [uvScaleR_eq]
-
-/-- **`Propagator.TransformsCorrect` discharged for the selected transform**: every wavelength, whichever
-method is selected there (FFT branch: C01 `fast_forward_eq_sum_2d`; MFT branch: C01 `mft_eq_sum_2d`). -/
-theorem lensPropagator_transformsCorrect (py px Fy Fx : RegAxis) (f : ℝ → ℝ) (cheaper : ℝ → Bool) (emu : Bool) :
-    (lensPropagator py px Fy Fx f cheaper emu).TransformsCorrect := by
-  intro lam
-  rw [lensPropagator_uvGrid]
-  exact lensTransform_evaluates _ _ _ _ _ _ _
-
-/-- **`fraunhofer_eq_integral` for the selected transform**: regular pupil and focal grids of any size, spacing
-and position, every wavelength and focal-length function, every outcome of the planner, both shift settings. -/
-theorem fraunhofer_eq_integral_sel (py px Fy Fx : RegAxis) (f : ℝ → ℝ) (cheaper : ℝ → Bool) (emu : Bool)
-    (wf : Wavefront (Fin py.n × Fin px.n) τ) (t : τ) (k : Fin Fy.n × Fin Fx.n) :
-    ((lensPropagator py px Fy Fx f cheaper emu).forward wf).field t k
-      = 1 / (I * (wf.wavelength : ℂ) * (f wf.wavelength : ℂ))
-        * ∑ j : Fin py.n × Fin px.n, wf.field t j * ((py.δ * px.δ : ℝ) : ℂ)
-            * cexp (-(2 * (Real.pi : ℂ) * I * ((dot ![Fx.x k.2, Fy.x k.1] ![px.x j.2, py.x j.1] : ℝ) : ℂ))
-                / ((wf.wavelength : ℂ) * (f wf.wavelength : ℂ))) :=
-  fraunhofer_eq_integral (lensPropagator py px Fy Fx f cheaper emu)
-    (lensPropagator_transformsCorrect py px Fy Fx f cheaper emu) wf t k
-
-/-- **backward = adjoint integral for the selected transform**, `λ f > 0`. -/
-theorem fraunhofer_backward_eq_adjoint_integral_sel (py px Fy Fx : RegAxis) (f : ℝ → ℝ) (cheaper : ℝ → Bool)
-    (emu : Bool) (wg : Wavefront (Fin Fy.n × Fin Fx.n) τ) (hpos : 0 < wg.wavelength * f wg.wavelength)
-    (t : τ) (j : Fin py.n × Fin px.n) :
-    ((lensPropagator py px Fy Fx f cheaper emu).backward wg).field t j
-      = I / ((wg.wavelength : ℂ) * (f wg.wavelength : ℂ))
-        * ∑ k : Fin Fy.n × Fin Fx.n, wg.field t k * ((Fy.δ * Fx.δ : ℝ) : ℂ)
-            * cexp (2 * (Real.pi : ℂ) * I * ((dot ![Fx.x k.2, Fy.x k.1] ![px.x j.2, py.x j.1] : ℝ) : ℂ)
-                / ((wg.wavelength : ℂ) * (f wg.wavelength : ℂ))) := by
-  apply fraunhofer_backward_eq_adjoint_integral (lensPropagator py px Fy Fx f cheaper emu) wg hpos
-  rw [lensPropagator_uvGrid]
-  exact lensTransform_adjoint _ _ _ _ _ _ _
-
-/-- **`fraunhofer_power` whichever transform is selected**: when the focal grid is a full conjugate of the pupil
-grid at the wavelength of the wavefront (`FullAt`: `Mo·δ·Δ = λ f`, `N ≤ Mo` on both axes; any position). -/
-theorem fraunhofer_power_sel (py px Fy Fx : RegAxis) (f : ℝ → ℝ) (cheaper : ℝ → Bool) (emu : Bool)
-    (wf : Wavefront (Fin py.n × Fin px.n) τ) (hpos : 0 < wf.wavelength * f wf.wavelength)
-    (hfull : FullAt py px Fy Fx (wf.wavelength * f wf.wavelength)) :
-    ∑ t, power (regGrid2 Fy Fx).weights (((lensPropagator py px Fy Fx f cheaper emu).forward wf).field t)
-      = ∑ t, power (regGrid2 py px).weights (wf.field t) := by
-  apply fraunhofer_power (lensPropagator py px Fy Fx f cheaper emu) wf hpos
-  rw [lensPropagator_uvGrid]
-  exact lensTransform_parseval hfull _ _
-
-/-- … Jones-matrix wavefronts with a Stokes vector. -/
-theorem fraunhofer_stokes_power_sel (py px Fy Fx : RegAxis) (f : ℝ → ℝ) (cheaper : ℝ → Bool) (emu : Bool)
-    (wf : Wavefront (Fin py.n × Fin px.n) (Fin 2 × Fin 2)) (S : Fin 4 → ℝ)
-    (hpos : 0 < wf.wavelength * f wf.wavelength)
-    (hfull : FullAt py px Fy Fx (wf.wavelength * f wf.wavelength)) :
-    stokesPower (regGrid2 Fy Fx).weights S ((lensPropagator py px Fy Fx f cheaper emu).forward wf).field
-      = stokesPower (regGrid2 py px).weights S wf.field := by
-  apply fraunhofer_stokes_power (lensPropagator py px Fy Fx f cheaper emu) wf S hpos
-  rw [lensPropagator_uvGrid]
-  exact lensTransform_parseval hfull _ _
-
-/-- **`fraunhofer_inverse` whichever transform is selected** on a full conjugate. -/
-theorem fraunhofer_inverse_sel (py px Fy Fx : RegAxis) (f : ℝ → ℝ) (cheaper : ℝ → Bool) (emu : Bool)
-    (wf : Wavefront (Fin py.n × Fin px.n) τ) (hne : wf.wavelength * f wf.wavelength ≠ 0)
-    (hfull : FullAt py px Fy Fx (wf.wavelength * f wf.wavelength)) :
-    (lensPropagator py px Fy Fx f cheaper emu).backward ((lensPropagator py px Fy Fx f cheaper emu).forward wf) = wf :=
-  fraunhofer_inverse (lensPropagator py px Fy Fx f cheaper emu) wf hne (lensTransform_inverse hfull _ _)
-
-/-- After `prop.focal_length = g` (cache cleared, transforms rebuilt by `make_instance`) the object is the
-propagator of the new focal length … -/
-theorem lensPropagator_setFocalLength (py px Fy Fx : RegAxis) (f g : ℝ → ℝ) (cheaper : ℝ → Bool) (emu : Bool) :
-    (lensPropagator py px Fy Fx f cheaper emu).setFocalLength g (lensPropagator py px Fy Fx g cheaper emu).ft
-      = lensPropagator py px Fy Fx g cheaper emu := rfl
-
-/-- … hence forward is the Fourier integral for the **new** focal length (constant or callable), every wavelength. -/
-theorem fraunhofer_eq_integral_after_set_sel (py px Fy Fx : RegAxis) (f g : ℝ → ℝ) (cheaper : ℝ → Bool) (emu : Bool)
-    (wf : Wavefront (Fin py.n × Fin px.n) τ) (t : τ) (k : Fin Fy.n × Fin Fx.n) :
-    (((lensPropagator py px Fy Fx f cheaper emu).setFocalLength g
-        (lensPropagator py px Fy Fx g cheaper emu).ft).forward wf).field t k
-      = 1 / (I * (wf.wavelength : ℂ) * (g wf.wavelength : ℂ))
-        * ∑ j : Fin py.n × Fin px.n, wf.field t j * ((py.δ * px.δ : ℝ) : ℂ)
-            * cexp (-(2 * (Real.pi : ℂ) * I * ((dot ![Fx.x k.2, Fy.x k.1] ![px.x j.2, py.x j.1] : ℝ) : ℂ))
-                / ((wf.wavelength : ℂ) * (g wf.wavelength : ℂ))) := by
-  rw [lensPropagator_setFocalLength]
-  exact fraunhofer_eq_integral_sel py px Fy Fx g cheaper emu wf t k
-
-/-- Non-vacuity of `FullAt` / `NativeAt`: pupil `2×2`, `δ = 1/2`; focal `4×4`, `Δ = 1/2`; `λ f = 1`. -/
-example : FullAt ⟨2, 1 / 2, 0⟩ ⟨2, 1 / 2, 0⟩ ⟨4, 1 / 2, -1⟩ ⟨4, 1 / 2, -1⟩ 1 := by
-  refine ⟨one_ne_zero, ⟨?_, ?_, ?_⟩, ⟨?_, ?_, ?_⟩⟩ <;> norm_num
-
-/-- … and a wavelength at which the same grids are *not* native (`λ f = 1/2`: `M = 2 < Mo = 4`), so the selected
-transform there is the MFT model (`lensTransform_mft_not_native`). -/
-example : ¬ NativeAt ⟨2, 1 / 2, 0⟩ ⟨2, 1 / 2, 0⟩ ⟨4, 1 / 2, -1⟩ ⟨4, 1 / 2, -1⟩ (1 / 2) := by
-  rintro ⟨_, My, Mx, ⟨_, h2, h3⟩, _⟩
-  have h4 : (4 : ℝ) ≤ (My : ℝ) := by exact_mod_cast h2
-  norm_num at h3
-  linarith
-
-/-- Non-vacuity: a consistent full pair exists (`N = 2`, `M = Mo = 4`, `δ = 1/2`, `dT = 1/2` on both axes). -/
-example : ∃ g : Cfg ℝ ℂ, AxisOK g ∧ g.Mo = g.M :=
-  ⟨{ N := 2, M := 4, Mo := 4, δ := 1 / 2, z := 0, dT := 1 / 2, s := 0, w := ((1 / 2 : ℝ) : ℂ), emu := false },
-    ⟨by norm_num, by norm_num, by norm_num, rfl⟩, rfl⟩
-
-end fft
 
 /-! ## the executed pipeline
 
@@ -1205,37 +550,366 @@ theorem lens_mft_forward_eq_integral {Ny Nx Nv Nu : ℕ} (x y X Y : ℕ → ℝ)
   exact fraunhofer_eq_integral_mft (τ := Unit) x y X Y wp (fun _ : Fin Nv × Fin Nu => 0) (fun _ => f) w
     (fun _ => w) hw ⟨fun _ => E, lam, none⟩ () k
 
-/-- **Bridge from the propagator object of the `_sel` theorems to the executed pipeline**: at a wavelength where the uv
-grid is FFT-native, `lensPropagator.forward` *is* `lensForward` on the method the planner's outcome selects, with the
-padded sizes of the native grid … -/
-theorem lensPropagator_forward_eq_pipeline (py px Fy Fx : RegAxis) (f : ℝ → ℝ) (cheaper : ℝ → Bool) (emu : Bool)
-    (wf : Wavefront (Fin py.n × Fin px.n) τ) (h : NativeAt py px Fy Fx (wf.wavelength * f wf.wavelength))
-    (t : τ) (k : Fin Fy.n × Fin Fx.n) :
-    ((lensPropagator py px Fy Fx f cheaper emu).forward wf).field t k
-      = lensForward expT expE (2 * Real.pi) Complex.ofReal (normFactorC wf.wavelength (f wf.wavelength))
-          (if cheaper wf.wavelength then Method.fft else Method.mft) emu (axOf py) (axOf px) (axOf Fy) (axOf Fx)
-          (wf.wavelength * f wf.wavelength) (nativeMy h) (nativeMx h) (ext2 (wf.field t)) k.1 k.2 := by
-  show normFactorC wf.wavelength (f wf.wavelength)
-      * (lensTransform py px Fy Fx (wf.wavelength * f wf.wavelength) (cheaper wf.wavelength) emu).fwd (wf.field t) k = _
-  cases hc : cheaper wf.wavelength
-  · rw [lensTransform_mft_dear h]
-    exact (lensForward_mft py px Fy Fx _ _ _ emu _ (wf.field t) k).symm
-  · rw [lensTransform_fft h]
-    exact (lensForward_fft py px Fy Fx _ _ _ emu _ _ _ (wf.field t) k).symm
-
-/-- … and at every other wavelength the MFT pipeline. -/
-theorem lensPropagator_forward_eq_pipeline_mft (py px Fy Fx : RegAxis) (f : ℝ → ℝ) (cheaper : ℝ → Bool) (emu : Bool)
-    (wf : Wavefront (Fin py.n × Fin px.n) τ) (h : ¬ NativeAt py px Fy Fx (wf.wavelength * f wf.wavelength))
-    (My Mx : ℕ) (t : τ) (k : Fin Fy.n × Fin Fx.n) :
-    ((lensPropagator py px Fy Fx f cheaper emu).forward wf).field t k
-      = lensForward expT expE (2 * Real.pi) Complex.ofReal (normFactorC wf.wavelength (f wf.wavelength))
-          Method.mft emu (axOf py) (axOf px) (axOf Fy) (axOf Fx)
-          (wf.wavelength * f wf.wavelength) My Mx (ext2 (wf.field t)) k.1 k.2 := by
-  show normFactorC wf.wavelength (f wf.wavelength)
-      * (lensTransform py px Fy Fx (wf.wavelength * f wf.wavelength) (cheaper wf.wavelength) emu).fwd (wf.field t) k = _
-  rw [lensTransform_mft_not_native h]
-  exact (lensForward_mft py px Fy Fx _ My Mx emu _ (wf.field t) k).symm
-
 end pipeline
+
+/-! ## the propagator object and the wavefront record (executed: driver op `obj`)
+
+`LensProp.forward/backward` (`Model/FraunhoferObj.lean`) are `FraunhoferPropagator.forward/backward` on a whole
+`Wavefront` record: instance for the wavefront's wavelength (focal length evaluated there, the transform
+`make_fourier_transform` returned = `plan λ`), every tensor component through the selected pipeline, wavelength and
+Stokes vector handed on.  The native driver runs these very functions with `scalarsQ` on every check and the harness
+compares all components, the wavelength and the Stokes vector of the result with the running code; the theorems below are
+about the same functions with `scalarsR`.  `regObj`/`ptsObj`/`wfOf` only name the record literals. -/
+section object
+open HcipyVerif.Fft HcipyVerif.FourierLink
+variable {σ : Type}
+
+/-- **Wavelength and Stokes vector are carried, forward and backward** — by the executed record functions, at every
+scalar type (in particular the instance the driver runs and the harness compares with `out.wavelength`,
+`out.input_stokes_vector` of the running code on every `obj` request), for every kind of focal grid, plan and
+wavefront. -/
+theorem obj_meta_carried {K C : Type} [Zero K] [Add K] [Sub K] [Mul K] [Neg K] [Div K] [One K] [NatCast K] [IntCast K]
+    [Zero C] [One C] [Add C] [Mul C] [Inv C] [NatCast C] (S : Scalars K C) (P : LensProp K) (wf : Wf σ K C) :
+    (P.forward S wf).wavelength = wf.wavelength ∧ (P.forward S wf).stokes = wf.stokes ∧
+    (P.backward S wf).wavelength = wf.wavelength ∧ (P.backward S wf).stokes = wf.stokes :=
+  ⟨rfl, rfl, rfl, rfl⟩
+
+/-- **Tensor components are transformed independently** (`multiplex_for_tensor_fields`): component `t` of the result of the
+executed `forward`/`backward` depends only on component `t` of the input and on the wavelength — at every scalar type, for
+every kind of focal grid and plan. -/
+theorem obj_componentwise {K C : Type} [Zero K] [Add K] [Sub K] [Mul K] [Neg K] [Div K] [One K] [NatCast K] [IntCast K]
+    [Zero C] [One C] [Add C] [Mul C] [Inv C] [NatCast C] (S : Scalars K C) (P : LensProp K) (wf wf' : Wf σ K C) (t : σ)
+    (h : wf.field t = wf'.field t) (hl : wf.wavelength = wf'.wavelength) :
+    (P.forward S wf).field t = (P.forward S wf').field t ∧ (P.backward S wf).field t = (P.backward S wf').field t := by
+  unfold LensProp.forward LensProp.backward
+  simp only [h, hl, and_self]
+
+/-- **`forward` of the object is the scaled Fourier integral for every tensor component** (scalar, Jones vector, Jones
+matrix: `σ` arbitrary), every wavelength, wavelength-dependent focal length, whatever sound plan the instance holds. -/
+theorem obj_forward_eq_integral (py px Fy Fx : RegAxis) (f : ℝ → ℝ) (plan : ℝ → Plan) (emu : Bool)
+    (E : σ → Fin py.n × Fin px.n → ℂ) (lam : ℝ) (S : Option (ℝ × ℝ × ℝ × ℝ))
+    (hs : PlanSound py px Fy Fx (lam * f lam) (plan lam)) (t : σ) (k : Fin Fy.n × Fin Fx.n) :
+    ((regObj py px Fy Fx f plan emu).forward scalarsR (wfOf E lam S)).field t k.1 k.2
+      = 1 / (I * (lam : ℂ) * (f lam : ℂ))
+        * ∑ j : Fin py.n × Fin px.n, E t j * ((py.δ * px.δ : ℝ) : ℂ)
+            * cexp (-(2 * (Real.pi : ℂ) * I * ((dot ![Fx.x k.2, Fy.x k.1] ![px.x j.2, py.x j.1] : ℝ) : ℂ))
+                / ((lam : ℂ) * (f lam : ℂ))) := by
+  obtain ⟨numFft, cheaper, hm, hn⟩ := hs
+  rw [regObj_forward_field, clip2_apply]
+  exact lens_forward_eq_integral py px Fy Fx lam (f lam) _ _ emu numFft cheaper _ hm hn (E t) k
+
+/-- **`backward` of the object is the adjoint Fourier integral for every tensor component** (`λ f > 0`, positive focal
+spacings). -/
+theorem obj_backward_eq_adjoint_integral (py px Fy Fx : RegAxis) (f : ℝ → ℝ) (plan : ℝ → Plan) (emu : Bool)
+    (G : σ → Fin Fy.n × Fin Fx.n → ℂ) (lam : ℝ) (S : Option (ℝ × ℝ × ℝ × ℝ))
+    (hs : PlanSound py px Fy Fx (lam * f lam) (plan lam)) (hpos : 0 < lam * f lam) (hy : 0 < Fy.δ) (hx : 0 < Fx.δ)
+    (t : σ) (j : Fin py.n × Fin px.n) :
+    ((regObj py px Fy Fx f plan emu).backward scalarsR (wfOf G lam S)).field t j.1 j.2
+      = I / ((lam : ℂ) * (f lam : ℂ))
+        * ∑ k : Fin Fy.n × Fin Fx.n, G t k * ((Fy.δ * Fx.δ : ℝ) : ℂ)
+            * cexp (2 * (Real.pi : ℂ) * I * ((dot ![Fx.x k.2, Fy.x k.1] ![px.x j.2, py.x j.1] : ℝ) : ℂ)
+                / ((lam : ℂ) * (f lam : ℂ))) := by
+  obtain ⟨numFft, cheaper, hm, hn⟩ := hs
+  rw [regObj_backward_field, clip2_apply]
+  exact lens_backward_eq_adjoint_integral py px Fy Fx lam (f lam) _ _ emu numFft cheaper _ hm hn hpos hy hx (G t) j
+
+/-- **Total power of the wavefront record is conserved on a full conjugate grid** (sum over all tensor components:
+scalar and Jones-vector wavefronts). -/
+theorem obj_power [Fintype σ] (py px Fy Fx : RegAxis) (f : ℝ → ℝ) (plan : ℝ → Plan) (emu : Bool)
+    (E : σ → Fin py.n × Fin px.n → ℂ) (lam : ℝ) (S : Option (ℝ × ℝ × ℝ × ℝ))
+    (hs : PlanSound py px Fy Fx (lam * f lam) (plan lam)) (hpos : 0 < lam * f lam)
+    (hfull : FullAt py px Fy Fx (lam * f lam)) :
+    ∑ t, power (regGrid2 Fy Fx).weights (fun k : Fin Fy.n × Fin Fx.n =>
+        ((regObj py px Fy Fx f plan emu).forward scalarsR (wfOf E lam S)).field t k.1 k.2)
+      = ∑ t, power (regGrid2 py px).weights (E t) := by
+  obtain ⟨numFft, cheaper, hm, hn⟩ := hs
+  apply Finset.sum_congr rfl
+  intro t _
+  rw [regObj_forward_field]
+  simp only [clip2_apply]
+  exact lens_power py px Fy Fx lam (f lam) _ _ emu numFft cheaper _ hm hn hpos hfull (E t)
+
+/-- **Stokes-`I` power of a Jones-matrix wavefront record** (any Stokes vector) is conserved on a full conjugate grid. -/
+theorem obj_stokes_power (py px Fy Fx : RegAxis) (f : ℝ → ℝ) (plan : ℝ → Plan) (emu : Bool)
+    (E : Fin 2 × Fin 2 → Fin py.n × Fin px.n → ℂ) (lam : ℝ) (S : Option (ℝ × ℝ × ℝ × ℝ)) (Sv : Fin 4 → ℝ)
+    (hs : PlanSound py px Fy Fx (lam * f lam) (plan lam)) (hpos : 0 < lam * f lam)
+    (hfull : FullAt py px Fy Fx (lam * f lam)) :
+    stokesPower (regGrid2 Fy Fx).weights Sv (fun c (k : Fin Fy.n × Fin Fx.n) =>
+        ((regObj py px Fy Fx f plan emu).forward scalarsR (wfOf E lam S)).field c k.1 k.2)
+      = stokesPower (regGrid2 py px).weights Sv E := by
+  obtain ⟨numFft, cheaper, hm, hn⟩ := hs
+  simp only [regObj_forward_field, clip2_apply]
+  exact lens_stokes_power py px Fy Fx lam (f lam) _ _ emu numFft cheaper _ hm hn hpos hfull Sv E
+
+/-- **`backward(forward(wf)) = wf` as records** on a full conjugate grid: every tensor component, the wavelength and the
+Stokes vector. -/
+theorem obj_inverse (py px Fy Fx : RegAxis) (f : ℝ → ℝ) (plan : ℝ → Plan) (emu : Bool)
+    (E : σ → Fin py.n × Fin px.n → ℂ) (lam : ℝ) (S : Option (ℝ × ℝ × ℝ × ℝ))
+    (hs : PlanSound py px Fy Fx (lam * f lam) (plan lam)) (hy : 0 < Fy.δ) (hx : 0 < Fx.δ)
+    (hfull : FullAt py px Fy Fx (lam * f lam)) :
+    (regObj py px Fy Fx f plan emu).backward scalarsR ((regObj py px Fy Fx f plan emu).forward scalarsR (wfOf E lam S))
+      = wfOf E lam S := by
+  obtain ⟨numFft, cheaper, hm, hn⟩ := hs
+  have hfield : ∀ t, ((regObj py px Fy Fx f plan emu).backward scalarsR
+      ((regObj py px Fy Fx f plan emu).forward scalarsR (wfOf E lam S))).field t = ext2 (E t) := by
+    intro t
+    rw [regObj_backward_field, regObj_forward_field, clip2_eq_ext2, clip2_eq_ext2]
+    congr 1
+    funext j
+    exact lens_inverse py px Fy Fx lam (f lam) _ _ emu numFft cheaper _ hm hn hy hx hfull (E t) j
+  show Wf.mk _ _ _ = Wf.mk _ _ _
+  congr 1
+  funext t
+  exact hfield t
+
+/-- **One object after any history of `focal_length` assignments** (unbounded; each assignment clears the cache, so the
+plans are those of the new focal length): `forward` is the integral for the **last** assigned focal length. -/
+theorem obj_forward_eq_integral_after_sets (py px Fy Fx : RegAxis) (emu : Bool)
+    (sets : List ((ℝ → ℝ) × (ℝ → Plan))) (f0 : ℝ → ℝ) (plan0 : ℝ → Plan) (g : ℝ → ℝ) (pl : ℝ → Plan)
+    (E : σ → Fin py.n × Fin px.n → ℂ) (lam : ℝ) (S : Option (ℝ × ℝ × ℝ × ℝ))
+    (hs : PlanSound py px Fy Fx (lam * g lam) (pl lam)) (t : σ) (k : Fin Fy.n × Fin Fx.n) :
+    (((sets ++ [(g, pl)]).foldl (fun P s => P.setFocalLength s.1 s.2) (regObj py px Fy Fx f0 plan0 emu)).forward
+        scalarsR (wfOf E lam S)).field t k.1 k.2
+      = 1 / (I * (lam : ℂ) * (g lam : ℂ))
+        * ∑ j : Fin py.n × Fin px.n, E t j * ((py.δ * px.δ : ℝ) : ℂ)
+            * cexp (-(2 * (Real.pi : ℂ) * I * ((dot ![Fx.x k.2, Fy.x k.1] ![px.x j.2, py.x j.1] : ℝ) : ℂ))
+                / ((lam : ℂ) * (g lam : ℂ))) := by
+  rw [regObj_sets]
+  exact obj_forward_eq_integral py px Fy Fx g pl emu E lam S hs t k
+
+/-- `PlanSound` is satisfiable for every pair of grids and every `λ f` (the MFT plan) … -/
+example (py px Fy Fx : RegAxis) (lf : ℝ) : ∃ pl, PlanSound py px Fy Fx lf pl := ⟨_, planSound_mft py px Fy Fx lf 0 0 false⟩
+
+/-- … and with the FFT selected: pupil `2×2`, `δ = 1/2`; focal `4×4`, `Δ = 1/2`; `λ f = 1`, padded sizes `4`. -/
+example : PlanSound ⟨2, 1 / 2, 0⟩ ⟨2, 1 / 2, 0⟩ ⟨4, 1 / 2, -1⟩ ⟨4, 1 / 2, -1⟩ 1 ⟨.fft, 4, 4, false⟩ := by
+  refine ⟨true, true, by decide, fun _ => ⟨by norm_num, ⟨?_, ?_, ?_⟩, ⟨?_, ?_, ?_⟩⟩⟩ <;> norm_num
+
+/-- `prop.focal_length = …` twice: the last assignment wins (the executed setter overwrites focal length and plans). -/
+theorem obj_setFocalLength_setFocalLength {K : Type} (P : LensProp K) (g h : K → K) (p q : K → Plan) :
+    (P.setFocalLength g p).setFocalLength h q = P.setFocalLength h q := rfl
+
+/-- **The clause "the Stokes vector is carried" is not empty**: a `forward` of the object that forgets the optional third
+constructor argument (`Bad.objForwardDropStokes`) returns a different record, and for the Stokes vector `(1, 1, 0, 0)` and
+the Jones matrix `(0 1; 0 0)` a different intensity (`0` vs `1/2`) — whatever the grids, plan and field. -/
+theorem Bad.obj_forward_dropStokes_changes_power (P : LensProp ℝ) (wf : Wf σ ℝ ℂ) (hS : wf.stokes = some (1, 1, 0, 0)) :
+    (Bad.objForwardDropStokes scalarsR P wf).stokes ≠ (P.forward scalarsR wf).stokes ∧
+      recordI (Bad.objForwardDropStokes scalarsR P wf).stokes 0 1 0 0 ≠ recordI (P.forward scalarsR wf).stokes 0 1 0 0 := by
+  have h1 : (P.forward scalarsR wf).stokes = some (1, 1, 0, 0) := hS
+  have h2 : (Bad.objForwardDropStokes scalarsR P wf).stokes = none := rfl
+  rw [h1, h2]
+  refine ⟨by simp, ?_⟩
+  unfold recordI stokesI
+  simp
+  norm_num
+
+/-- the hypothesis is satisfiable -/
+example : ∃ wf : Wf Unit ℝ ℂ, wf.stokes = some (1, 1, 0, 0) := ⟨⟨fun _ _ _ => 0, 1, some (1, 1, 0, 0)⟩, rfl⟩
+
+/-! ### the executable plan and object (ℚ), what the driver builds -/
+
+/-- **The executable plan is sound**: what `planOf` (the executable `lensMethod` and `classify`) puts into the object
+the driver runs satisfies `PlanSound` for the casts of the rational grids, whatever the planner's outcome. -/
+theorem planOf_sound (s : Setup) (focal : RegGrid) {δx δy Δx Δy zx zy Zx Zy : ℚ} {Nx Ny Mox Moy : ℕ}
+    (hp : s.pupil = ⟨[δx, δy], [Nx, Ny], [zx, zy]⟩) (hf : focal = ⟨[Δx, Δy], [Mox, Moy], [Zx, Zy]⟩)
+    (hlf : lamf s ≠ 0) (cheaper mat : Bool) :
+    PlanSound (axisR Ny δy zy) (axisR Nx δx zx) (axisR Moy Δy Zy) (axisR Mox Δx Zx) ((lamf s : ℚ) : ℝ)
+      (planOf s (.regular focal) cheaper mat) := by
+  refine ⟨(classify s focal).1 != FocalClass.other, cheaper, ?_, ?_⟩
+  · have h2 : s.pupil.ndim = 2 := by rw [hp]; rfl
+    have h3 : focal.ndim = 2 := by rw [hf]; rfl
+    have hsome := lensMethod_some s focal hp hf cheaper
+    have hm : (planOf s (.regular focal) cheaper mat).m
+        = (if (classify s focal).1 ≠ .other ∧ cheaper = true then Method.fft else Method.mft) := by
+      simp only [planOf, hsome, Option.getD_some]
+    rw [hm, ← hsome]
+    unfold lensMethod
+    rw [h2, h3]
+    rfl
+  · intro hnum
+    have hne : (classify s focal).1 ≠ .other := by simpa using hnum
+    obtain ⟨Mx', My', hMs, ⟨hNx, hMox, hx⟩, ⟨hNy, hMoy, hy⟩⟩ := classify_native_2d hp hf hne
+    have hMy : (planOf s (.regular focal) cheaper mat).My = My' := by simp only [planOf, hMs]
+    have hMx : (planOf s (.regular focal) cheaper mat).Mx = Mx' := by simp only [planOf, hMs]
+    rw [hMy, hMx]
+    exact ⟨by exact_mod_cast hlf, nativeAxis_cast hNy hMoy hy, nativeAxis_cast hNx hMox hx⟩
+
+/-- **What the driver's object is** for a 2-D regular pupil and focal grid: the axes of the two grids, the session's
+current focal length, and per wavelength the executable plan of the instance. -/
+theorem lensObj_regular (ss : Session) (focal : RegGrid) {δx δy Δx Δy zx zy Zx Zy : ℚ} {Nx Ny Mox Moy : ℕ}
+    (hp : ss.pupil = ⟨[δx, δy], [Nx, Ny], [zx, zy]⟩) (hf : focal = ⟨[Δx, Δy], [Mox, Moy], [Zx, Zy]⟩)
+    (cheaper mat emu : Bool) :
+    lensObj ss (.regular focal) cheaper mat emu
+      = some ⟨⟨Ny, δy, zy⟩, ⟨Nx, δx, zx⟩, .regular ⟨Moy, Δy, Zy⟩ ⟨Mox, Δx, Zx⟩, ss.focalLength.eval,
+          fun lam => planOf (ss.instanceAt lam) (.regular focal) cheaper mat, emu⟩ := by
+  unfold lensObj axesOf
+  rw [hp, hf]
+  rfl
+
+/-- **The executed setter on the executed object, unbounded histories**: the object the driver runs after any history of
+`prop.focal_length = …` assignments (`lensObjAfter`: `LensProp.setFocalLength` folded over the history, each step installing
+the plans of the new focal length) *is* the object constructed with the last assigned value — for every kind of focal grid.
+Nothing of earlier focal lengths survives; the harness compares this object's results with the one real propagator object
+that went through the same assignments. -/
+theorem lensObjAfter_last (ss0 : Session) (fs : List FocalSpec) (g : FocalSpec) (focal : FocalSpecGrid)
+    (cheaper mat emu : Bool) :
+    lensObjAfter ss0 (fs ++ [g]) focal cheaper mat emu = lensObj (ss0.setFocalLength g) focal cheaper mat emu := by
+  have key : ∀ P0 : LensProp Rat,
+      (fs ++ [g]).foldl (fun P g => P.setFocalLength g.eval
+        (fun lam => planOf ((ss0.setFocalLength g).instanceAt lam) focal cheaper mat)) P0
+      = P0.setFocalLength g.eval (fun lam => planOf ((ss0.setFocalLength g).instanceAt lam) focal cheaper mat) := by
+    intro P0
+    rw [List.foldl_append]
+    simp only [List.foldl_cons, List.foldl_nil]
+    generalize (fun lam => planOf ((ss0.setFocalLength g).instanceAt lam) focal cheaper mat) = b
+    generalize g.eval = a
+    induction fs generalizing P0 with
+    | nil => rfl
+    | cons x xs ih => exact (ih _).trans rfl
+  unfold lensObjAfter
+  simp only [key]
+  unfold lensObj
+  show (match axesOf ss0.pupil with | none => none | some (py, px) => _).map _
+    = (match axesOf ss0.pupil with | none => none | some (py, px) => _)
+  cases axesOf ss0.pupil with
+  | none => rfl
+  | some a =>
+    obtain ⟨py, px⟩ := a
+    simp only [Option.map_map]
+    rfl
+
+/-- **End to end from the executable object**: an object over `ℝ` whose focal length and plan at the (rational)
+wavelength are those of the object the driver builds (`lensObj_regular`) — after any history of `focal_length`
+assignments on the session — computes the scaled integral for the session's current focal length. -/
+theorem obj_forward_eq_integral_of_model (ss : Session) (fs : List FocalSpec) (g : FocalSpec) (focal : RegGrid)
+    {δx δy Δx Δy zx zy Zx Zy : ℚ} {Nx Ny Mox Moy : ℕ}
+    (hp : ss.pupil = ⟨[δx, δy], [Nx, Ny], [zx, zy]⟩) (hf : focal = ⟨[Δx, Δy], [Mox, Moy], [Zx, Zy]⟩)
+    (cheaper mat emu : Bool) (lam : ℚ) (hlf : lam * g.eval lam ≠ 0) (f : ℝ → ℝ) (plan : ℝ → Plan)
+    (hfl : f (lam : ℝ) = ((g.eval lam : ℚ) : ℝ))
+    (hpl : plan (lam : ℝ) = planOf (((fs ++ [g]).foldl Session.setFocalLength ss).instanceAt lam) (.regular focal) cheaper mat)
+    (E : σ → Fin Ny × Fin Nx → ℂ) (S : Option (ℝ × ℝ × ℝ × ℝ)) (t : σ) (k : Fin Moy × Fin Mox) :
+    ((regObj (axisR Ny δy zy) (axisR Nx δx zx) (axisR Moy Δy Zy) (axisR Mox Δx Zx) f plan emu).forward scalarsR
+        (wfOf E (lam : ℝ) S)).field t k.1 k.2
+      = 1 / (I * ((lam : ℝ) : ℂ) * (((g.eval lam : ℚ) : ℝ) : ℂ))
+        * ∑ j : Fin Ny × Fin Nx, E t j * (((δy : ℝ) * (δx : ℝ) : ℝ) : ℂ)
+            * cexp (-(2 * (Real.pi : ℂ) * I * ((dot ![(axisR Mox Δx Zx).x k.2, (axisR Moy Δy Zy).x k.1]
+                  ![(axisR Nx δx zx).x j.2, (axisR Ny δy zy).x j.1] : ℝ) : ℂ))
+                / (((lam : ℝ) : ℂ) * (((g.eval lam : ℚ) : ℝ) : ℂ))) := by
+  have hsound := planOf_sound ⟨lam, g.eval lam, ss.pupil⟩ focal hp hf (by unfold lamf; exact hlf) cheaper mat
+  rw [session_instance_after_sets ss fs g lam] at hpl
+  have hcast : ((lamf ⟨lam, g.eval lam, ss.pupil⟩ : ℚ) : ℝ) = (lam : ℝ) * f (lam : ℝ) := by
+    unfold lamf; rw [hfl]; push_cast; rfl
+  rw [hcast, ← hpl] at hsound
+  have h := obj_forward_eq_integral (axisR Ny δy zy) (axisR Nx δx zx) (axisR Moy Δy Zy) (axisR Mox Δx Zx) f plan emu E
+    (lam : ℝ) S hsound t k
+  rw [hfl] at h
+  exact h
+
+/-! ### unstructured and polar focal grids: the naive transform inside the pipeline -/
+
+/-- **The executable selection returns the naive transform for a focal grid that is not separated** (unstructured,
+polar), whatever the planner says. -/
+theorem planOf_points_naive (s : Setup) (X Y w : List ℚ) (cheaper mat : Bool) (h2 : s.pupil.ndim = 2) :
+    (planOf s (.points X Y w) cheaper mat).m = .naive := by
+  simp [planOf, h2, Fft.choose, detectFix, detectLit, GridDesc.isRegular, GridDesc.isSeparated]
+
+/-- **The executed naive pipeline equals the scaled Fourier integral** on any list of focal points (unstructured grids,
+polar grids through their Cartesian coordinates), both code paths of `NaiveFourierTransform` (`mat`), every wavelength
+and focal length: C01's `nftForwardFly`/`nftForwardMat` composed into the lens. -/
+theorem lens_naive_forward_eq_integral (mat : Bool) (py px : RegAxis) (X Y : ℕ → ℝ) (lam f : ℝ)
+    (E : Fin py.n × Fin px.n → ℂ) (k : ℕ) :
+    lensNaiveForward expT mat Complex.ofReal (axOf py) (axOf px) X Y (lam * f) (ext2 E) k * normFactorC lam f
+      = 1 / (I * (lam : ℂ) * (f : ℂ))
+        * ∑ j : Fin py.n × Fin px.n, E j * ((py.δ * px.δ : ℝ) : ℂ)
+            * cexp (-(2 * (Real.pi : ℂ) * I * ((dot ![X k, Y k] ![px.x j.2, py.x j.1] : ℝ) : ℂ))
+                / ((lam : ℂ) * (f : ℂ))) := by
+  rw [lensNaiveForward_eq_sum, mul_comm]
+  unfold normFactorC
+  congr 1
+  · rw [mul_right_comm]
+  · apply Finset.sum_congr rfl
+    intro j _
+    congr 1
+    unfold expT
+    congr 1
+    simp only [dot, Fin.sum_univ_two, Matrix.cons_val_zero, Matrix.cons_val_one]
+    push_cast
+    ring
+
+/-- **… and backward is the adjoint Fourier integral** over the focal points with their weights `w_k` (`λ f ≠ 0`). -/
+theorem lens_naive_backward_eq_adjoint_integral (mat : Bool) (py px : RegAxis) (n : ℕ) (X Y w : ℕ → ℝ) (lam f : ℝ)
+    (hne : lam * f ≠ 0) (G : ℕ → ℂ) (j : Fin py.n × Fin px.n) :
+    lensNaiveBackward expT mat Complex.ofReal (axOf py) (axOf px) n X Y w (lam * f) G (j.1 * px.n + j.2)
+        * (normFactorC lam f)⁻¹
+      = I / ((lam : ℂ) * (f : ℂ))
+        * ∑ k ∈ Finset.range n, G k * (w k : ℂ)
+            * cexp (2 * (Real.pi : ℂ) * I * ((dot ![X k, Y k] ![px.x j.2, py.x j.1] : ℝ) : ℂ)
+                / ((lam : ℂ) * (f : ℂ))) := by
+  rw [lensNaiveBackward_eq_sum, Finset.sum_mul, Finset.mul_sum]
+  have hlf : ((lam : ℂ) * (f : ℂ)) ≠ 0 := by exact_mod_cast hne
+  have hl : (lam : ℂ) ≠ 0 := left_ne_zero_of_mul hlf
+  have hf : (f : ℂ) ≠ 0 := right_ne_zero_of_mul hlf
+  apply Finset.sum_congr rfl
+  intro k _
+  have hexp : expT (X k / (lam * f) * px.x j.2 + Y k / (lam * f) * py.x j.1)
+      = cexp (2 * (Real.pi : ℂ) * I * ((dot ![X k, Y k] ![px.x j.2, py.x j.1] : ℝ) : ℂ) / ((lam : ℂ) * (f : ℂ))) := by
+    unfold expT
+    congr 1
+    simp only [dot, Fin.sum_univ_two, Matrix.cons_val_zero, Matrix.cons_val_one]
+    push_cast
+    ring
+  rw [hexp]
+  unfold normFactorC
+  push_cast
+  field_simp
+
+/-- **`forward` of the object onto a point-list focal grid** (unstructured, polar) is the scaled Fourier integral for
+every tensor component — the record function the driver runs (op `obj … pts`). -/
+theorem obj_forward_points_eq_integral (py px : RegAxis) (n : ℕ) (X Y w : ℕ → ℝ) (f : ℝ → ℝ) (plan : ℝ → Plan)
+    (emu : Bool) (E : σ → Fin py.n × Fin px.n → ℂ) (lam : ℝ) (S : Option (ℝ × ℝ × ℝ × ℝ)) (t : σ) (k : Fin n) :
+    ((ptsObj py px n X Y w f plan emu).forward scalarsR (wfOf E lam S)).field t 0 k
+      = 1 / (I * (lam : ℂ) * (f lam : ℂ))
+        * ∑ j : Fin py.n × Fin px.n, E t j * ((py.δ * px.δ : ℝ) : ℂ)
+            * cexp (-(2 * (Real.pi : ℂ) * I * ((dot ![X k, Y k] ![px.x j.2, py.x j.1] : ℝ) : ℂ))
+                / ((lam : ℂ) * (f lam : ℂ))) := by
+  rw [ptsObj_forward_field]
+  have : clip2 1 n (fun _ k => lensNaiveForward expT (plan (wfOf E lam S).wavelength).mat Complex.ofReal (axOf py)
+      (axOf px) X Y ((wfOf E lam S).wavelength * f (wfOf E lam S).wavelength) ((wfOf E lam S).field t) k
+        * normFactorC (wfOf E lam S).wavelength (f (wfOf E lam S).wavelength)) 0 k
+      = lensNaiveForward expT (plan lam).mat Complex.ofReal (axOf py) (axOf px) X Y (lam * f lam) (ext2 (E t)) k
+        * normFactorC lam (f lam) := by
+    simp [clip2, k.2, wfOf]
+  rw [this]
+  exact lens_naive_forward_eq_integral _ py px X Y lam (f lam) (E t) k
+
+/-- **`backward` of the object from a point-list focal grid** is the adjoint Fourier integral over the focal points with
+their weights, for every tensor component (`λ f ≠ 0`). -/
+theorem obj_backward_points_eq_adjoint_integral (py px : RegAxis) (n : ℕ) (X Y w : ℕ → ℝ) (f : ℝ → ℝ) (plan : ℝ → Plan)
+    (emu : Bool) (G : σ → ℕ → ℕ → ℂ) (lam : ℝ) (S : Option (ℝ × ℝ × ℝ × ℝ)) (hne : lam * f lam ≠ 0) (t : σ)
+    (j : Fin py.n × Fin px.n) :
+    ((ptsObj py px n X Y w f plan emu).backward scalarsR ⟨G, lam, S⟩).field t j.1 j.2
+      = I / ((lam : ℂ) * (f lam : ℂ))
+        * ∑ k ∈ Finset.range n, G t 0 k * (w k : ℂ)
+            * cexp (2 * (Real.pi : ℂ) * I * ((dot ![X k, Y k] ![px.x j.2, py.x j.1] : ℝ) : ℂ)
+                / ((lam : ℂ) * (f lam : ℂ))) := by
+  rw [ptsObj_backward_field, clip2_apply]
+  exact lens_naive_backward_eq_adjoint_integral _ py px n X Y w lam (f lam) hne (G t 0) j
+
+/-! ### object identity: what a call history creates -/
+
+/-- **Results are new objects, for every call history** (unbounded; fresh wavefronts with or without Stokes vector,
+results fed back in): in the executed allocation model (`runCalls`, driver op `alias`, compared with `np.shares_memory`
+on the real objects after the same history) all field arrays and Stokes-vector arrays of all wavefronts — inputs and
+results — are pairwise distinct objects: `forward`/`backward` never return or keep an array of their input or of an
+earlier result, and the Stokes vector of a result is a copy. -/
+theorem calls_create_distinct_arrays (cs : List Call) :
+    ((runCalls ⟨0⟩ [] cs).2.flatMap WfRef.ids).Nodup :=
+  (heapOk_runCalls cs ⟨0⟩ [] ⟨by simp, by simp⟩).1
+
+/-- … and a result carries a Stokes vector exactly when its input does. -/
+theorem propagate_stokes_iff (h : Heap) (w : WfRef) : (h.propagate w).2.stokes.isSome = w.stokes.isSome := by
+  unfold Heap.propagate
+  cases w.stokes <;> rfl
+
+end object
 
 end HcipyVerif.Fraunhofer
